@@ -32,7 +32,7 @@ def judge(ck, prop, trace, what, spec="MeshTrace"):
         if key in seen:
             continue
         seen.add(key)
-        small = {k: ev[k] for k in ev if k not in ("s", "t", "r", "b")}
+        small = {k: ev[k] for k in ev if k not in ("s", "t", "r", "b", "obs")}
         for side in ("s", "t"):
             if side in ev and isinstance(ev[side], list):
                 small[side + "_summary"] = [{k: sh[k] for k in ("kind", "name", "nv", "nt", "bones") if k in sh} for sh in ev[side]][:4]
